@@ -5,35 +5,35 @@ use customasm::*;
 
 /// A BitVec of `n` bits whose bit i is bit (31 - i) of `content` (BitStore model: the
 /// vector's backing integer owns the destination array).
-fn fill(bv: &mut util::BitVec, n: usize, content: u32, max: usize) {
+fn fill(bv: &mut util::BitVec, n: usize, content: u64, max: usize) {
     let mut i = 0;
     while i < max {
         if i < n {
-            bv.write_bit(i, (content >> (31 - i)) & 1 == 1);
+            bv.write_bit(i, (content >> (63 - i)) & 1 == 1);
         }
         i += 1;
     }
 }
-fn bit(content: u32, n: usize, i: usize) -> bool {
-    i < n && (content >> (31 - i)) & 1 == 1
+fn bit(content: u64, n: usize, i: usize) -> bool {
+    i < n && (content >> (63 - i)) & 1 == 1
 }
 
 modelled_bits! {
-    #[kani::unwind(19)]
+    #[kani::unwind(43)]
     fn c11_a_binary() {
         reset_bitstore();
         let n: usize = kani::any();
-        kani::assume(n <= 16);
-        let content: u32 = kani::any();
+        kani::assume(n <= 40);
+        let content: u64 = kani::any();
         let mut bv = util::BitVec::new();
-        fill(&mut bv, n, content, 16);
+        fill(&mut bv, n, content, 40);
         read_dst(true);
         assert!(bv.len() == n);
         let out = bv.format_binary();
         assert!(out.len() == (n + 7) / 8, "binary output is not ceil(bits / 8) bytes long");
         kani::cover!(n == 13 && out.len() == 2, "non byte-multiple length padded");
         kani::cover!(n == 0, "empty output");
-        kani::cover!(n == 16 && out[1] == 0xa5, "two full bytes");
+        kani::cover!(n == 40 && out[4] == 0xa5, "five full bytes");
         let i: usize = kani::any();
         kani::assume(i < out.len() * 8);
         let got = (out[i / 8] >> (7 - (i % 8))) & 1 == 1;
@@ -43,37 +43,37 @@ modelled_bits! {
 }
 
 modelled_bits! {
-    #[kani::unwind(19)]
+    #[kani::unwind(43)]
     #[kani::stub(alloc::string::String::push, crate::model::st_string_push_ascii)]
     fn c11_a_binstr() {
         reset_bitstore();
         let n: usize = kani::any();
-        kani::assume(n <= 16);
-        let content: u32 = kani::any();
+        kani::assume(n <= 40);
+        let content: u64 = kani::any();
         let mut bv = util::BitVec::new();
-        fill(&mut bv, n, content, 16);
+        fill(&mut bv, n, content, 40);
         read_dst(true);
         let s = bv.format_binstr();
         assert!(s.len() == n, "bit string is not one digit per bit");
         let i: usize = kani::any();
         kani::assume(i < n);
         assert!(s.as_bytes()[i] == if bit(content, n, i) { b'1' } else { b'0' }, "bit string digit differs from the assembled bit");
-        kani::cover!(n == 16 && i == 15, "last of 16 digits");
+        kani::cover!(n == 40 && i == 39, "last of 40 digits");
         kani::cover!(n == 1 && s.as_bytes()[0] == b'1');
         std::mem::forget(bv); std::mem::forget(s);
     }
 }
 
 modelled_bits! {
-    #[kani::unwind(19)]
+    #[kani::unwind(43)]
     #[kani::stub(alloc::string::String::push, crate::model::st_string_push_ascii)]
     fn c11_a_hexstr() {
         reset_bitstore();
         let n: usize = kani::any();
-        kani::assume(n <= 16);
-        let content: u32 = kani::any();
+        kani::assume(n <= 40);
+        let content: u64 = kani::any();
         let mut bv = util::BitVec::new();
-        fill(&mut bv, n, content, 16);
+        fill(&mut bv, n, content, 40);
         read_dst(true);
         let s = bv.format_hexstr();
         assert!(s.len() == (n + 3) / 4, "hex string is not ceil(bits / 4) digits long");
@@ -88,7 +88,7 @@ modelled_bits! {
         let c = s.as_bytes()[d];
         let got = if c >= b'0' && c <= b'9' { c - b'0' } else if c >= b'a' && c <= b'f' { c - b'a' + 10 } else { 255 };
         assert!(got == want, "hex digit differs from the assembled bits (or padding is not zero)");
-        kani::cover!(n == 14 && s.len() == 4, "non nibble-multiple length padded");
+        kani::cover!(n == 38 && s.len() == 10, "non nibble-multiple length padded");
         kani::cover!(got >= 10, "letter digit");
         std::mem::forget(bv); std::mem::forget(s);
     }
